@@ -172,7 +172,7 @@ fn gen(rng: &mut Rng, tier: &str) -> Vec<(String, Value)> {
         let pos = positions(base);
         for p in &pos {
             for f in faults_of(p) {
-                if bi == 1 && !thorough && rng.chance(1, 2) { continue }
+                if bi == 1 && !thorough && rng.chance(2, 3) { continue }
                 let mut s = base.clone();
                 inject(&mut s, p, 0, *f);
                 let cfg = if rng.chance(1, 3) { random_cfg(rng) } else { dflt.clone() };
@@ -182,7 +182,7 @@ fn gen(rng: &mut Rng, tier: &str) -> Vec<(String, Value)> {
         }
     }
     // (c) pairs of faults
-    let npairs = if thorough { 600 } else { 120 };
+    let npairs = if thorough { 600 } else { 60 };
     for _ in 0..npairs {
         let base = &bases[rng.below(2) as usize];
         let pos = positions(base);
@@ -232,7 +232,7 @@ fn gen(rng: &mut Rng, tier: &str) -> Vec<(String, Value)> {
         }
     }
     // (f) histories of 2-3 runs on one cache
-    let nhist = if thorough { 200 } else { 60 };
+    let nhist = if thorough { 200 } else { 42 };
     for i in 0..nhist {
         let mut r = rng.fork();
         let mut s = loop { let s = make_world(&mut r, 1 + (i % 2), 2, 3, 2); if aspa_customers_unique(&s.spec) && s.spec.cas.len() >= 2 { break s } };
@@ -303,7 +303,7 @@ fn gen(rng: &mut Rng, tier: &str) -> Vec<(String, Value)> {
         cases.push(case(class, &s.spec, &cfg, steps));
     }
     // (g) structured random: bigger trees, 0-3 random faults
-    let nrand = if thorough { 800 } else { 100 };
+    let nrand = if thorough { 800 } else { 60 };
     for i in 0..nrand {
         let mut r = rng.fork();
         let s = loop { let s = make_world(&mut r, 1 + (i % 3), 1 + (i % 4), 4, 3); if aspa_customers_unique(&s.spec) && s.spec.cas.len() <= 14 { break s } };
